@@ -244,6 +244,8 @@ func c16Bodies(written []byte) []c16Body {
 		{"empty", nil, "gzip", false},
 		{"syntax-broken-json", encodeBody("gzip", written[:len(written)/2]), "gzip", false},
 		{"well-formed-deflate", encodeBody("deflate", written), "deflate", true},
+		// two gzip members back to back (RFC 1952 section 2.2): decodes to the concatenation
+		{"two-members", append(append([]byte{}, encodeBody("gzip", written[:len(written)/2])...), encodeBody("gzip", written[len(written)/2:])...), "gzip", true},
 	}
 }
 
@@ -424,6 +426,6 @@ func checkC16(run *h.Run) {
 	run.Cov["evaluations"] = int64(len(cases)*2) + trans
 	run.Cov["distinct_nontrivial"] = len(cases) + len(seqs)*2
 	run.Cov["exhaustive"] = true
-	run.Cov["rule"] = fmt.Sprintf("E1: values (int64 in {0,-1,2^53+1,MaxInt64,MinInt64} x strings incl. unicode and XML/JSON metacharacters x nested slice of 0-2 elements) written by the real entity writer and read back by the real entity reader, x codec {json, xml} x Content-Type spelling (charset parameters with and without spaces, absent with DefaultRequestContentType) x Content-Encoding {none, gzip, deflate} x pretty-print x provider {sync.Pool, bounded(1)} x target {struct, generic map (JSON: numbers exact)}; E2: every sequence of <= %d bodies over 13 well-formed / truncated / byte-flipped / wrongly declared / empty / syntactically broken gzip bodies on one provider: the last body reads exactly as when sent first on a fresh provider, well-formed => value, broken => error, never a panic. Every case is non-trivial.", depth)
+	run.Cov["rule"] = fmt.Sprintf("E1: values (int64 in {0,-1,2^53+1,MaxInt64,MinInt64} x strings incl. unicode and XML/JSON metacharacters x nested slice of 0-2 elements) written by the real entity writer and read back by the real entity reader, x codec {json, xml} x Content-Type spelling (charset parameters with and without spaces, absent with DefaultRequestContentType) x Content-Encoding {none, gzip, deflate} x pretty-print x provider {sync.Pool, bounded(1)} x target {struct, generic map (JSON: numbers exact)}; E2: every sequence of <= %d bodies over 14 well-formed (incl. a two-member gzip stream) / truncated / byte-flipped / wrongly declared / empty / syntactically broken gzip bodies on one provider: the last body reads exactly as when sent first on a fresh provider, well-formed => value, broken => error, never a panic. Every case is non-trivial.", depth)
 	run.Assume = []string{"values in the codecs' common domain (no control characters XML cannot carry)", "nil and empty slices are identified"}
 }
